@@ -273,10 +273,77 @@ def r4(ctx, F):
                         return False
             return True
         ok = staged_at_callers(b, po)
+        if not ok:
+            # `self.staged.as_deref().unwrap_or(&self.dst)`: the target is the staging name kept in an Option field, or the final
+            # name when that field is None.  Decided where the struct is built: if every construction puts Some(<staging name>)
+            # there, the final name is never written; if one can put None, a delivery can land in place.
+            alt = _option_field_target(F, b, fl, po)
+            if alt is not None:
+                verdict, why_ = alt
+                if verdict is None:
+                    ctx.undecided('C09.R4', '%s: %s' % (top.split('::')[-1], why_))
+                    continue
+                ctx.check(verdict, 'C09.R4', '%s:%s' % (top.split('::')[-1], c.split('::')[-1]), why_,
+                          '%s writes file content to the final name when %s: a kill leaves a truncated live file' % (top, why_), term_loc(b, bb))
+                continue
         ctx.check(ok, 'C09.R4', '%s:%s' % (top.split('::')[-1], c.split('::')[-1]), 'content creator receives a staging path at every call site',
                   '%s creates file content directly at a non-staging destination path: a kill leaves a truncated live file' % top, term_loc(b, bb))
     if n < 2:
         ctx.missing('C09.R4', 'content creators under run_sync_recursive (found %d)' % n)
+
+
+def _option_field_target(F, b, fl, po):
+    """(True/False/None, text) for a path that is `<obj>.<opt field>` (Some) or else `<obj>.<path field>`; None when the
+    operand is not of that shape"""
+    real = [o for o in po if o.kind != 'comb']
+    combs = [o for o in po if o.kind == 'comb']
+    if not real or not combs or not all(o.kind in ('param', 'upvar') for o in real) or len({(o.kind, o.key) for o in real}) != 1:
+        return None
+    if not any(str(o.key).split('::')[-1] in ('unwrap_or', 'unwrap_or_else', 'map_or', 'map_or_else') for o in combs):
+        return None
+    fields = {tuple(e for e in o.path if not str(e).startswith('@') and not str(e).isdigit())[:1] for o in real}
+    fields = {f[0] for f in fields if f}
+    if len(fields) != 2:
+        return None
+    # the struct that has both fields, one of them an Option
+    cands = []
+    for name, adt in F.adts.items():
+        for v in adt.get('variants', []):
+            fs = {f.get('name'): f.get('ty', '') for f in v.get('fields', [])} if v.get('fields') and isinstance(v['fields'][0], dict) else {}
+            if fields <= set(fs) and sum(1 for f in fields if 'Option<' in fs[f]) == 1:
+                cands.append((name, next(f for f in fields if 'Option<' in fs[f])))
+    if len(cands) != 1:
+        return (None, 'the delivery target is kept in an Option field of a struct that was not identified')
+    sname, optf = cands[0]
+    n, none_at, other = 0, None, None
+    for p_, bd in F.bodies.items():
+        f2 = None
+        for bi, blk in enumerate(bd.blocks):
+            for st in blk['stmts']:
+                rv = st['rv']
+                if rv['k'] == 'agg' and rv.get('adt') == sname and optf in rv.get('fields', []):
+                    f2 = f2 or flow_of(bd)
+                    if bi not in f2.cfg.reachable():
+                        continue
+                    n += 1
+                    os_ = [o for o in f2.origins(rv['ops'][rv['fields'].index(optf)]) if o.kind != 'comb']
+                    for o in os_:
+                        if o.kind == 'agg' and str(o.key) == 'std::option::Option::None':
+                            none_at = (bd, bi)
+                        elif o.kind == 'agg' and str(o.key) == 'std::option::Option::Some':
+                            pass
+                        elif o.kind == 'call' and o.key == STAGING_FN:
+                            pass
+                        else:
+                            other = (bd, bi, o)
+    short = sname.split('::')[-1]
+    if n == 0:
+        return (None, 'no construction of %s found' % short)
+    if none_at is not None:
+        return (False, '%s.%s is None (a construction of %s in %s can leave it empty)' % (short, optf, short, none_at[0].path.split('::{')[0].split('::')[-1]))
+    if other is not None:
+        return (None, 'what %s.%s holds is built in a way that is not read (%s)' % (short, optf, str(other[2].key)[:60]))
+    return (True, 'every construction of %s stores Some(<staging name>) in .%s: the final name is never the copy target' % (short, optf))
 
 
 def r5(ctx, F):
